@@ -187,7 +187,7 @@ func (m *machine) genBlock(t *rapid.T) fop {
 	}
 	// one plain block step in eight is a restart: the farm module goes through its own genesis at the new height
 	if len(m.pools) > 0 && rapid.IntRange(0, 7).Draw(t, "restart") == 0 {
-		return fop{K: "restart"}
+		return fop{K: "restart", Spell: rapid.SampledFrom([]int{0, 0, 0, 1}).Draw(t, "edited")}
 	}
 	return fop{K: "block", N: rapid.SampledFrom([]int{1, 1, 1, 1, 1, 1, 2, 2, 3, 6}).Draw(t, "n")}
 }
